@@ -138,8 +138,16 @@ def theorem_statements(rel_v):
 # Leg C, model side: evaluation inside Coq
 # ---------------------------------------------------------------------------------------
 
-def coq_eval(sources, timeout=900, tag="case"):
-    """Each source is a complete .v file whose output contains Eval results. Returns list of stdout."""
+MODEL_TIMEOUT = "MODEL_TIMEOUT"
+
+
+def coq_eval(sources, timeout=900, tag="case", soft=60, line_timeout=30):
+    """Each source is a complete .v file whose output contains Eval results. Returns list of stdout.
+
+    Cost control: the proved oracles are exact but some (PDA acceptance on products that push long strings) are exponential in
+    parameters a random generator occasionally hits. A file that runs longer than `soft` seconds is stopped and its `Eval` lines are
+    evaluated one per process with `line_timeout` seconds each; a line that still does not finish prints the value MODEL_TIMEOUT, which
+    the engines count and skip (never judge)."""
     d = workdir()
     files = []
     for i, s in enumerate(sources):
@@ -148,14 +156,41 @@ def coq_eval(sources, timeout=900, tag="case"):
             fh.write(s)
         files.append(f)
 
-    def run(f):
-        p = subprocess.run("ulimit -s unlimited 2>/dev/null; exec timeout %d coqc -Q %s PFL %s" % (timeout, COQ, f),
-                           shell=True, capture_output=True, text=True, cwd=d)
+    def coqc(f, limit):
+        return subprocess.run("ulimit -s unlimited 2>/dev/null; exec timeout %d coqc -Q %s PFL %s" % (limit, COQ, f),
+                              shell=True, capture_output=True, text=True, cwd=d)
+
+    def splittable(src):
+        lines = src.rstrip("\n").split("\n")
+        k = next((j for j, l in enumerate(lines) if l.startswith("Eval ")), None)
+        if k is None or not all(l.startswith("Eval ") for l in lines[k:]):
+            return None
+        return lines[:k], lines[k:]
+
+    def run(args):
+        f, src = args
+        sp = splittable(src)
+        p = coqc(f, soft if sp else timeout)
+        if p.returncode == 124 and sp:
+            head, evals = sp
+            def one(jl):
+                j, l = jl
+                g = f[:-2] + "_l%d.v" % j
+                with open(g, "w", encoding="utf-8") as fh:
+                    fh.write("\n".join(head + [l]) + "\n")
+                q = coqc(g, line_timeout)
+                if q.returncode == 124:
+                    return "     = %s\n     : unit\n" % MODEL_TIMEOUT
+                if q.returncode != 0:
+                    raise HarnessError("coqc failed on %s (exit %d): %s" % (g, q.returncode, (q.stderr[-1500:] + "\n" + q.stdout[-300:])))
+                return q.stdout
+            with ThreadPoolExecutor(max_workers=max(2, NCPU // 2)) as ex2:
+                return "".join(ex2.map(one, list(enumerate(evals))))
         if p.returncode != 0:
             raise HarnessError("coqc failed on %s (exit %d): %s" % (f, p.returncode, (p.stderr[-1500:] + "\n" + p.stdout[-300:])))
         return p.stdout
     with ThreadPoolExecutor(max_workers=NCPU) as ex:
-        return list(ex.map(run, files))
+        return list(ex.map(run, list(zip(files, sources))))
 
 
 class HarnessError(Exception):
